@@ -89,7 +89,7 @@ var kinds = map[string]kind{
 	"Fe": {name: "Fe", isF: true, isL: true, filter: zerolog.ErrorLevel},
 }
 
-var evLevels = []zerolog.Level{zerolog.DebugLevel, zerolog.InfoLevel, zerolog.ErrorLevel, zerolog.NoLevel}
+var evLevels = []zerolog.Level{zerolog.DebugLevel, zerolog.InfoLevel, zerolog.ErrorLevel, zerolog.NoLevel, zerolog.TraceLevel}
 
 func emit(lg zerolog.Logger, lvl zerolog.Level, i int) {
 	lg.WithLevel(lvl).Int("i", i).Str("pad", strings.Repeat("x", i*3)).Msg("m")
